@@ -395,3 +395,14 @@ Theorem C08_qcopy_spec : forall full x,
   qcopy full (qcopy full x) = qcopy full x /\ qcopy false (qcopy true x) = qcopy false x.
 Proof. exact qcopy_spec. Qed.
 Print Assumptions C08_qcopy_spec.
+
+(* ---------------------------------------------------------------------------------------------------------------- *)
+(* known finding smarts-stereo-branch-mark-inverted (status "known", /repo frozen): "two spellings of one cis/trans configuration
+   get the same flag" is FALSE for the faithful model: the matcher reads the flag relative to the first bonded neighbour of each
+   end, smarts() computes it from the last written mark, so a marked branch ('F/C(/Cl)=C/F' versus 'F/C(Cl)=C/F', both with the
+   two F trans) inverts it.  What holds without marked branches is tied by search only (RDKit, cis/trans pairs) *)
+Theorem C08_stereo_flag_spelling_independent_refuted :
+  double_bond_flag "F/C(Cl)=C/F" = Some (Some false) /\ double_bond_flag "F/C(/Cl)=C/F" = Some (Some true) /\
+  double_bond_flag "F/C=C/F" = Some (Some false) /\ double_bond_flag "F/C=C\F" = Some (Some true).
+Proof. exact stereo_flag_spelling_independent_refuted. Qed.
+Print Assumptions C08_stereo_flag_spelling_independent_refuted.
